@@ -19,6 +19,7 @@ func FuzzVerifC15Bandwidth(f *testing.F) {
 	}
 	f.Add("1e400M", uint32(1), uint32(1000000000), uint8(7))
 	f.Fuzz(func(t *testing.T, s string, a, b uint32, forms uint8) {
+		defer g.FuzzGuard(t, "FuzzVerifC15Bandwidth", s, a, b, forms)()
 		c := g.FuzzSink{T: t}
 		vfC15RunBw(c, vfC15BwScenario{Kind: "fuzz", Value: g.Bytes(s)})
 		vfC15RunScale(c, vfC15ScaleScenario{MilliA: int64(a%1000000000) + 1, MilliB: int64(b%1000000000) + 1, FormA: int(forms % 6), FormB: int(forms / 6 % 6)})
@@ -34,6 +35,7 @@ func FuzzVerifC15ConvertPod(f *testing.F) {
 		f.Add(s, s, s, s, s, s, s, s, true)
 	}
 	f.Fuzz(func(t *testing.T, ingress, egress, podENI, prio, reserve, owner, phase, ip string, viaClient bool) {
+		defer g.FuzzGuard(t, "FuzzVerifC15ConvertPod", ingress, egress, podENI, prio, reserve, owner, phase, ip, viaClient)()
 		s := vfC15PodScenario{Kind: "fuzz", ERDMA: true, ViaClient: viaClient, Stateful: []string{"statefulset"},
 			Annos: []vfC15KV{
 				{K: g.Bytes(podIngressBandwidth), V: g.Bytes(ingress)}, {K: g.Bytes(podEgressBandwidth), V: g.Bytes(egress)},
@@ -56,6 +58,7 @@ func FuzzVerifC15PodStore(f *testing.F) {
 		f.Add([]byte(s), false)
 	}
 	f.Fuzz(func(t *testing.T, rec []byte, live bool) {
+		defer g.FuzzGuard(t, "FuzzVerifC15PodStore", rec, live)()
 		vfC15RunStore(g.FuzzSink{T: t}, vfC15StoreScenario{Kind: "fuzz", PodLive: live,
 			Records: []vfC15KV{{K: g.Bytes("ns/p0"), V: g.Bytes(rec)}}})
 	})
